@@ -108,7 +108,8 @@ def welford_rolling(F, R):
         if any(trivially_false(c) for c in conds):
             continue
         if leaf == NONE:
-            seen_none = seen_none or any(relation(c, ('in', n), lit(0, 'i')) == {'='} for c in conds)
+            # nothing is reported exactly when no sample has been seen: n = 0, however it is spelled (n is unsigned)
+            seen_none = seen_none or any(relation(c, ('in', n), lit(0, 'i')) in ({'='}, {'<', '='}) for c in conds)
             continue
         if leaf[0] == 'some':
             x = leaf[1]
